@@ -1295,7 +1295,10 @@ Proof. exact LoadsMultiExample.example_loads_multi_table. Qed.
    single-section file, C02_loads_stream_partial), so the statement excepts their numbers [part_xids parts] exactly as C02_full
    excepts [structural_nums].  For every other identifier the loaded object and [content a] agree by value: none missing, none
    added, superseded definitions not delivered, an object listed again keeps its definition.
-   THE DOMAIN [C02_multi_domain st parts a file]: as C02_multi_domain_table, with [parts_ok] = per part, AT THE VALUES ITS LAYOUT
+   A stream's Length is direct or a reference to an integer object of the document, written in ANY part (before or after the
+   stream): Reader::read resolves it through the MERGED table while parsing (C02_length_ref_eager; LoadsMultiMixed.indirect_x_top2).
+   THE DOMAIN [C02_multi_domain st parts a file]: as C02_multi_domain_table with [top_ok2] (Length direct or by reference) per
+   object, and [parts_ok] = per part, AT THE VALUES ITS LAYOUT
    HAS (position, Prev, the merge so far, the highest number so far): a table part: [trailer_dom]; a stream part: with a filter the entry width
    is a machine integer and the document's trailer has no DecodeParms (the loader is load_ext with Stream::decompress = decompress_ref),
    and the stream dictionary (Type, Size, W, Index, the document's trailer entries, Prev, Filter / DecodeParms, Length) is spelled legally in the style of
@@ -1306,7 +1309,7 @@ Definition C02_multi_domain (st : fstyle) (parts : list mpart) (a : adoc) (file 
   s_ostms st = [] /\
   LoadsMultiMixed.parts_ok st a LoadsFilterProofs.decompress_ref LoadsFilterProofs.can_ref (part_xids parts) parts
     (blen (RefWriter.header st (a_version a))) None [] 0 /\
-  Forall LoadsTableProofs.top_ok (LoadsTableProofs.tops st a) /\ Utf.utf8_decode (a_version a) <> None /\
+  Forall (LoadsRefLenProofs.top_ok2 a) (LoadsTableProofs.tops st a) /\ Utf.utf8_decode (a_version a) <> None /\
   (dict_get (a_trailer a) RefWriter.K_Size = None /\ dict_get (a_trailer a) K_Prev = None /\
    dict_get (a_trailer a) K_Encrypt = None /\ dict_get (a_trailer a) K_XRefStm = None /\
    dict_get (a_trailer a) K_Index = None /\ dict_get (a_trailer a) K_Filter = None) /\
